@@ -46,7 +46,7 @@ type Run struct {
 
 type violation struct {
 	sig, what, replay string
-	noInput          bool
+	noInput           bool
 }
 
 type knownFinding struct {
@@ -258,15 +258,15 @@ func (r *Run) finish(wall time.Duration) {
 	sort.Strings(known)
 
 	cov := map[string]interface{}{
-		"evaluations":         r.evals,
-		"distinct_nontrivial": len(r.distinct),
-		"rule":                r.rule,
-		"samples":             r.samples,
-		"distribution":        r.dist,
-		"tiers_ran":           tiers,
-		"inconclusive":        r.inconcl,
-		"notes":               r.notes,
-		"known_findings_hit":  known,
+		"evaluations":                   r.evals,
+		"distinct_nontrivial":           len(r.distinct),
+		"rule":                          r.rule,
+		"samples":                       r.samples,
+		"distribution":                  r.dist,
+		"tiers_ran":                     tiers,
+		"inconclusive":                  r.inconcl,
+		"notes":                         r.notes,
+		"known_findings_hit":            known,
 		"traces_validated_against_impl": r.implTraces,
 	}
 	if r.exhaustive {
